@@ -54,7 +54,7 @@ def one(job):
     block = job[7] if len(job) > 7 else 0
     kw = {'yield': yld, 'engine': engine}
     if block:
-        nev = min(nev, 100)
+        nev = min(nev, 300); nprod = 2 if seed % 3 else nprod      # few producers: nobody else wakes the stepper when one enqueue fails to
         # every enqueue dwells at its entry (before the queue's lock is taken): whatever it looked at there is stale by the time it pushes
         if seed % 4: kw['script'] = 'beq.enqueue.pre@prod:sleep:1500*'     # producer threads only: the stepper stays faster than they are
     r = thr.run(flavour, 'producers', CHART, timeout=180, producers=nprod, events=nev, seed=seed, early=early, block=block, pace=400 if block else 0, **kw)
@@ -103,7 +103,7 @@ def main(tier, replay):
     jobs = []
     for i in range(runs):
         nprod = rng.choice([2, 4, 8]); nev = rng.choice([100, 300, 600]) if nprod < 8 else rng.choice([50, 150])
-        jobs.append(('tsan' if i % 4 else 'asan', chk.seed * 10000 + i, nprod, nev, rng.choice([0, 50, 200, 500]), 'large' if i % 3 else 'fast', 1 if i % 5 == 2 else 0, 3000 if i % 4 == 1 else 0))
+        jobs.append(('tsan' if i % 4 else 'asan', chk.seed * 10000 + i, nprod, nev, rng.choice([0, 50, 200, 500]), 'large' if i % 3 else 'fast', 1 if i % 5 == 2 else 0, 3000 if i % 2 == 1 else 0))
     sigs = set(); processed = 0; other = collections.Counter()
     for rec in common.pmap(one, jobs, workers=min(8, common.NPROC)):
         chk.count(); processed += rec['processed']; sigs |= rec['sigs']
@@ -116,7 +116,7 @@ def main(tier, replay):
     chk.add('external_events_processed', processed); chk.add('distinct_interleaving_signatures', len(sigs)); chk.add('tsan_reports_outside_anchored_files', dict(other))
     need = 20 if tier == "quick" else 150
     if len(sigs) < need: chk.inconc('only %d distinct interleaving signatures observed (< %d)' % (len(sigs), need))
-    chk.rule = ('each run = N in {2,4,8} producer threads x M uniquely named events against one stepping thread mixing step(0)/step(1)/step(5), or sleeping in step(3000) (1 of 4 runs: every enqueue must wake it within 2 s) (in 1 of 5 runs the producers start before the first step()), seeded yields/sleeps at the USCXML_VERIF schedule points; '
+    chk.rule = ('each run = N in {2,4,8} producer threads x M uniquely named events against one stepping thread mixing step(0)/step(1)/step(5), or sleeping in step(3000) (every other run, mostly with 2 producers: every enqueue must wake it within 2 s) (in 1 of 5 runs the producers start before the first step()), seeded yields/sleeps at the USCXML_VERIF schedule points; '
                 'TSan build (3 of 4 runs) and ASan build; offline checker: every sent event processed exactly once, per-producer order, and per external event the exact internal sequence (micro step, eventless micro step, i.a, i.b, i.c, one stable notice). '
                 'distinct_nontrivial = runs without violation; interleaving signature = hash of the (thread role, site) sequence of the 6 schedule-point hits following a receive()')
     chk.assumptions = ['interleavings are sampled, not enumerated', 'TSan reports are attributed only when a frame lies in the anchored files; others are listed, not judged']
